@@ -23,7 +23,7 @@ import (
 var c02Tokens = []string{
 	"if", "else", "end", "range", "block", "yield", "content", "include", "extends", "import", "try", "catch", "return",
 	"and", "or", "not", "nil", "true", "msg", "trans",
-	"a", "_", "_a", "_é", "é", ".f", ".", "1", "-1", "1.5", "0x", "1e", "٣", "𝟑x", `"s"`, `"`, "`r`", "`", "'c'", "'",
+	"a", "_", "_a", "_é", "é", ".f", ".", "1", "-1", "1.5", "0x", "1e", "٣", "𝟑x", "1i", ".5", "..", "'\\n'", "'ab'", `"\\q"`, `"s"`, `"`, "`r`", "`", "'c'", "'",
 	"+", "-", "*", "/", "%", "<", "<=", ">", "==", "!=", "!", "&&", "||", "&", "|", "?", ":", ":=", "=", ",", ";",
 	"(", ")", "[", "]", " ", "\n", "#", "\xff", "{", "}",
 }
